@@ -2,7 +2,7 @@
 from props import clientprops as cp
 
 LEVEL = cp.LEVEL
-TRUSTED_EXTRA = ['harness/pytrans6.py: fail-closed translator of ClientSession.subscribe / unsubscribe / publish and _Protocol.on_publish (hpfeeds/asyncio/client.py) and the same six methods of hpfeeds/twisted/service.py (ClientSessionService, _Protocol) -> coq/AioGen.v (regenerated on every run), state transformers over the model state of coq/AioSession.v (self.subscriptions = wanted, self.protocol = cur, protocol.subscribe/unsubscribe/publish = transport.write(msgX) on that connection, read_queue.put_nowait = append); proved equal to do_sub / do_unsub / do_pub and the OP_PUBLISH branch of on_frame in coq/AioGenEq.v (no axioms); the coroutines, the ClientService / DeferredQueue of Twisted and the blocking clients are hand-written or assumed and tied by the correspondence check only']
+TRUSTED_EXTRA = ['harness/pytrans7.py: ClientSession.subscribe / unsubscribe / publish and Protocol.on_publish of hpfeeds/blocking/session.py -> coq/BlkGen.v, proved to be the BApp steps / HPublish effect of coq/BlkSession.v in coq/BlkGenEq.v (no axioms)', 'harness/pytrans6.py: fail-closed translator of ClientSession.subscribe / unsubscribe / publish and _Protocol.on_publish (hpfeeds/asyncio/client.py) and the same six methods of hpfeeds/twisted/service.py (ClientSessionService, _Protocol) -> coq/AioGen.v (regenerated on every run), state transformers over the model state of coq/AioSession.v (self.subscriptions = wanted, self.protocol = cur, protocol.subscribe/unsubscribe/publish = transport.write(msgX) on that connection, read_queue.put_nowait = append); proved equal to do_sub / do_unsub / do_pub and the OP_PUBLISH branch of on_frame in coq/AioGenEq.v (no axioms); the coroutines, the ClientService / DeferredQueue of Twisted and the blocking clients are hand-written or assumed and tied by the correspondence check only']
 ASSUMPTIONS = cp.ASSUMPTIONS
 
 
